@@ -177,15 +177,31 @@ def suites(rng, tier):
         {"suite": "auth", "name": "gate-matrix", "lines": m,
          "distribution": {"financial_instructions": len(FINANCIAL), "states": list(STATES), "timings": TIMINGS, "cells": len(m)}},
         {"suite": "auth", "name": "gate-random", "lines": r, "distribution": {"cells": len(r)}},
+        {"suite": "auth", "name": "validate-bank-state-fn", "lines": [f"G {s} {k}" for s in range(4) for k in range(4)],
+         "distribution": {"exhaustive": "4 states x 4 kinds"}},
     ]
 
 
 def nontrivial(suite, case, impl):
+    if case.startswith("G "):
+        return impl == "OK" or impl.startswith("E")
     return impl.startswith(("OK", "V ", "B ", "PASSV", "PASSB"))
 
 
 def oracle(suite, case, impl):
     """C14 evaluated on the real outcome of the cell."""
+    if case.startswith("G "):
+        # the property's table: paused -> nothing; reduce-only -> no deposit/borrow; killed -> nothing
+        _, st, kd = case.split()
+        st, kd = int(st), int(kd)
+        deposit_kind, withdraw_kind = kd == 3, kd == 2
+        refuse = st == 3 or (st == 0 and (deposit_kind or withdraw_kind)) or (st == 2 and deposit_kind)
+        allow = st == 1 or (st == 2 and withdraw_kind)
+        if refuse and impl == "OK":
+            return {"key": f"validate_bank_state-accepts:{st}:{kd}", "what": f"validate_bank_state(state {st}, kind {kd}) = Ok"}
+        if allow and impl != "OK":
+            return {"key": f"validate_bank_state-refuses:{st}:{kd}", "what": f"validate_bank_state(state {st}, kind {kd}) = {impl}"}
+        return None
     k = kvs(case)
     ix = k["ix"]
     if "STORE-CHANGED" in impl:
